@@ -7,7 +7,10 @@ Driver glue for C20.  Bytes are hex (`-` = empty).  A `str`/`bytes` argument is 
   `C20 san <hex>`                          → hex of `_sanitizeLinearWhitespace`
   `C20 name <str>`                         → hex of the canonical header name | `!raised <Class>`
   `C20 parse <head> <eof> <hex>`           → the reference parser alone
-  `C20 run <http11> <head> <connClose> <op> <op> …`
+  `C20 names <str> <str> …`                → the same for each name in turn, joined by `,`
+  `C20 seq <run args> | <run args> | …`    → the requests of ONE connection in order, answers joined by ` | `
+  `C20 run <http11> <head> <conn> <op> <op> …`     conn: `0` no Connection header, `1` = `Connection: close`,
+                                                   `c<hex>` = `Connection: <those bytes>`
       ops: `sc:<code>:<hex|N>`  `sh:<name>:<value>`  `ah:<name>:<value>`  `w:<hex>`  `f`
            `sr:<name>:<value>,<value>…` (`-` = no value)  `rm:<name>`
            `ck:<k>:<v>:<expires>:<domain>:<path>:<max_age>:<comment>:<secure>:<httpOnly>:<sameSite>`
@@ -65,27 +68,55 @@ def showParse : Option Twisted.Http.Rfc9112.Resp → String
 
 def showBool (b : Bool) : String := if b then "1" else "0"
 
+/-- the request's Connection header: `0` none, `1` `close`, `c<hex>` that value -/
+def decConn (s : String) : Option (Option Bytes) :=
+  if s = "0" then some none else if s = "1" then some (some (bs "close")) else
+  match s.toList with
+  | 'c' :: rest => (unhex (String.ofList rest)).map some
+  | _ => none
+
+def showName (s : String) : Option String :=
+  (decStr s).map fun n => match encodeName n with
+    | .ok x => hex x
+    | .error e => "!raised " ++ errName e
+
+/-- one request/response exchange: `<http11> <head> <conn> <op> …` -/
+def runLine (args : List String) : Option String :=
+  match args with
+  | p11 :: hd :: cc :: ops =>
+    match decBool p11, decBool hd, decConn cc, ops.mapM decOp with
+    | some p11, some hd, some conn, some ops =>
+      let (r, errs) := run (initConn p11 hd conn) ops
+      let es := if errs.isEmpty then "-" else ",".intercalate (errs.map fun (i, e) => toString i ++ ":" ++ errName e)
+      some ("errs=" ++ es ++ " out=" ++ hex r.out ++ " closed=" ++ showBool r.closed ++ " parse=" ++
+        showParse (Twisted.Http.Rfc9112.parseResponse hd r.closed r.out))
+    | _, _, _, _ => none
+  | _ => none
+
+def splitBar : List String → List (List String)
+  | [] => [[]]
+  | x :: rest =>
+    if x = "|" then [] :: splitBar rest
+    else match splitBar rest with
+      | g :: gs => (x :: g) :: gs
+      | [] => [[x]]
+
 def handle (args : List String) : String :=
   match args with
   | ["san", h] => match unhex h with
     | some b => hex (sanitize b)
     | none => "bad-op"
-  | ["name", s] => match decStr s with
-    | some n => (match encodeName n with
-      | .ok x => hex x
-      | .error e => "!raised " ++ errName e)
+  | ["name", s] => (showName s).getD "bad-op"
+  | "names" :: ns => match ns.mapM showName with
+    | some rs => if rs.isEmpty then "bad-op" else ",".intercalate rs
     | none => "bad-op"
   | ["parse", hd, eof, h] => match decBool hd, decBool eof, unhex h with
     | some hd, some eof, some b => showParse (Twisted.Http.Rfc9112.parseResponse hd eof b)
     | _, _, _ => "bad-op"
-  | "run" :: p11 :: hd :: cc :: ops =>
-    match decBool p11, decBool hd, decBool cc, ops.mapM decOp with
-    | some p11, some hd, some cc, some ops =>
-      let (r, errs) := run (init p11 hd cc) ops
-      let es := if errs.isEmpty then "-" else ",".intercalate (errs.map fun (i, e) => toString i ++ ":" ++ errName e)
-      "errs=" ++ es ++ " out=" ++ hex r.out ++ " closed=" ++ showBool r.closed ++ " parse=" ++
-        showParse (Twisted.Http.Rfc9112.parseResponse hd r.closed r.out)
-    | _, _, _, _ => "bad-op"
+  | "run" :: rest => (runLine rest).getD "bad-op"
+  | "seq" :: rest => match (splitBar rest).mapM runLine with
+    | some rs => " | ".intercalate rs
+    | none => "bad-op"
   | _ => "bad-op"
 
 end Twisted.Drv.C20
